@@ -106,7 +106,11 @@ def strip_comments(src):
 def grep_gate():
     """No Admitted/admit/Axiom/... anywhere in the development (comments ignored)."""
     bad = []
-    for f in sorted(glob.glob(os.path.join(COQ, "**", "*.v"), recursive=True)):
+    listed = [l.strip() for l in open(os.path.join(COQ, "_CoqProject")) if l.strip().endswith(".v")]
+    for f in sorted(os.path.join(COQ, l) for l in listed):
+        if not os.path.exists(f):
+            bad.append("%s listed in _CoqProject but missing" % f)
+            continue
         txt = strip_comments(open(f).read())
         for ln, line in enumerate(txt.split("\n"), 1):
             if GATE_RE.search(line):
@@ -130,11 +134,12 @@ def coq_deps(vfile):
     return out.split() if rc == 0 else []
 
 
-def props_obligations(pid):
+def props_obligations(pid, extra=()):
     """Re-compile Props/<pid>.v and read what it proves.  Returns dict with
     obligations (Theorems stated), discharged (those whose Print Assumptions is
     closed), names, axioms seen, log."""
-    files = sorted(glob.glob(os.path.join(COQ, "Props", pid + ".v")) + glob.glob(os.path.join(COQ, "Props", pid + "_*.v")))
+    files = sorted(set(glob.glob(os.path.join(COQ, "Props", pid + ".v")) + glob.glob(os.path.join(COQ, "Props", pid + "_*.v")) +
+                       [os.path.join(COQ, "Props", e) for e in extra if os.path.exists(os.path.join(COQ, "Props", e))]))
     if not files:
         return {"file": "coq/Props/%s.v" % pid, "names": [], "obligations": 0, "discharged": 0, "axioms": [], "ok": False,
                 "log": "missing Props/%s.v" % pid, "missing_print": []}
